@@ -545,6 +545,9 @@ class FormulaManager(object):
         AllDifferent(x, y, z) := (x != y) & (x != z) & (y != z)
         """
         exprs = self._polymorph_args_to_tuple(args)
+        if len(exprs) == 1:
+            self._check_single_arg(exprs[0], "AllDifferent",
+                                   lambda t: not t.is_function_type())
         res = []
         for i, a in enumerate(exprs):
             for b in exprs[i+1:]:
